@@ -15,24 +15,29 @@ pony's `pony_pool_mockup` keyword; the `sqlite` module global of pony.orm.dbprov
 returns a forwarding wrapper (`WCon` / `WCur`).  The wrapper numbers every *statement* that would reach SQLite
 (`Connection.execute` - the two PRAGMAs of `SQLitePool._connect` -, `Cursor.execute`, `Cursor.executemany`,
 `Connection.commit`, `Connection.rollback`; numbering starts at the first statement of the faulted session) and at the
-statement whose number equals the fault position either
+statement whose number equals a fault position
   (i)  raises `sqlite3.OperationalError` once, INSTEAD of forwarding the statement (a failed commit()/rollback() leaves
        the transaction open, exactly like SQLITE_BUSY / SQLITE_IOERR on COMMIT), or
   (ii) "dies": this call and every later call on every wrapper object (cursor(), execute, fetch*, commit, rollback,
        close ...) raises, nothing more reaches SQLite, and the harness finally closes the raw connection without commit.
        This is the in-process stand-in for process death at that statement (SQLite's journal discards the uncommitted
-       transaction of a connection that goes away; that is trusted).
+       transaction of a connection that goes away; that is trusted), or
+  (iii) (added to the design) forwards the statement and THEN raises `sqlite3.OperationalError` once: the statement took
+       effect but the caller is told it failed (a COMMIT that became durable although an error was reported).
 Afterwards a FRESH `sqlite3` connection reads every table of the file.
 
-Symbolic (decided by CrossHair/z3): the fault position k1 (0 = none; 1..KMAX), the failure kind `die1`, a second fault
-position k2 > k1 with its own kind `die2` (a fault sequence: e.g. the INSERT fails and then the ROLLBACK fails, or the
-connection dies during cleanup), the session mode (0 optimistic, 1 `immediate=True`, 2 `serializable=True`,
+Symbolic (decided by CrossHair/z3): the fault position k1 (0 = none; 1..KMAX), the failure kind `kind1` (0 = (i) error
+before effect, 1 = (ii) dies, 2 = (iii) error after effect), a second fault position k2 > k1 with its own kind (a fault
+sequence: e.g. the INSERT fails and then the ROLLBACK fails, or the connection dies during cleanup), in the thorough
+tier a third one, the session mode (0 optimistic, 1 `immediate=True`, 2 `serializable=True`,
 3 `optimistic=False`) and `warm` (the faulted session finds a pooled connection left by an earlier session / has to
 open a new one, so the PRAGMAs of `_connect` are fault positions too).  One harness function per write program, so the
 programs run in parallel worker processes.  The programs (function `p_*` + its reference in `PROGRAMS`) are a fixed
 family: insert; update (transfer); delete (with m2m cascade); m2m add/remove; raw `db.execute` before / after ORM writes;
 `db.insert`; a raw cursor from `db.get_connection()`; bulk `Query.delete`; two explicit flushes; `commit()` in the middle
-(ORM and raw); `rollback()` in the middle.  EVERY unit of every program issues at least two write statements - a unit
+(ORM and raw); `rollback()` in the middle; a nested db_session (whose exit must not commit); `get_for_update` /
+`for_update()` reads before the writes; a `@db_session(retry=1, retry_exceptions=[OperationalError])` function (a survivable
+error is absorbed by a second attempt).  EVERY unit of every program issues at least two write statements - a unit
 with one statement would be atomic even in autocommit mode and could not expose a missing BEGIN.
 
 How it is executed: as in C19, the only symbolic data are those numbers and flags and pony never sees them.  The flags are
@@ -55,10 +60,11 @@ change lists in `PROGRAMS`, not from pony):
   A4 without a fault the session raises nothing and leaves the last state.
 An exception from the faulted session itself is always acceptable.
 
-Deviations from DESIGN.md C17: none in substance.  Added beyond it: the second fault position, `warm`, the
-pessimistic mode, the A3 follow-up session.  Bounds: KMAX statements per faulted session (a path that issues more
-fails the harness); quick tier: second fault position only up to K2MAX_QUICK (see checks/c17.py); programs are
-enumerated (not solver-quantified).  Outside: PostgreSQL autocommit switching (no server), OS-level crashes in the
+Deviations from DESIGN.md C17: none in substance.  Added beyond it: failure kind (iii), the second / third fault
+position, `warm`, the pessimistic mode, the A3 follow-up session, the nested / for_update / retry programs.  Bounds: KMAX
+statements per faulted session (a path that issues more fails the harness).  Quick tier: one fault of any kind, or two
+faults (i)+(i) / (i)+(ii).  Thorough tier: two faults of every kind combination, or three faults (i)+(i)+(i) /
+(i)+(i)+(ii).  Programs are enumerated (not solver-quantified).  Outside: PostgreSQL autocommit switching (no server), OS-level crashes in the
 middle of a single SQLite call (SQLite's journal is trusted), sessions spanning two databases (pony documents
 PartialCommitException for them), threads.
 """
@@ -68,6 +74,9 @@ from engine import fakedb as F
 
 KMAX = int(os.environ.get('C17_KMAX', '48'))     # fault positions range over 0..KMAX; every faulted session stays below it (checked)
 K2MAX = int(os.environ.get('C17_K2MAX', '0'))    # second fault position (0 = off); set by checks/c17.py
+K3MAX = int(os.environ.get('C17_K3MAX', '0'))    # third fault position (thorough tier)
+FULL = os.environ.get('C17_FULL') == '1'         # thorough tier: every kind combination for two faults
+KINDS = 3
 MODES = int(os.environ.get('C17_MODES', '4'))
 
 MODE_KW = ({}, dict(immediate=True), dict(serializable=True), dict(optimistic=False))
@@ -110,23 +119,34 @@ class Plan(object):
             raise sqlite3.OperationalError('connection is dead (injected at an earlier statement)')
 
     def tick(self, op, sql=None):
-        """counted statement: raises instead of letting it reach SQLite when it is the faulted one"""
+        """counted statement.  Raises instead of letting it reach SQLite when it is the faulted one (kinds 0, 1);
+        returns a function the caller runs AFTER forwarding the statement (kind 2 raises there)."""
         self.gate(op)
         if not self.armed:
-            return
+            return _nothing
         self.n += 1
         n = self.n
         for i, k in enumerate(self.faults):
             if (self.compare(k, n) if self.compare is not None else k == n):
                 self.hit += 1
-                if self.kinds[i]:
+                kind = self.kinds[i]
+                self.log.append((n, op, sql, ('ERROR', 'DIES', 'ERROR-AFTER-EFFECT')[kind]))
+                if kind == 2:
+                    def after():
+                        raise sqlite3.OperationalError('injected error after statement %d (%s) took effect' % (n, op))
+                    return after
+                if kind == 1:
                     self.dead = True
-                self.log.append((n, op, sql, 'DIES' if self.kinds[i] else 'ERROR'))
-                raise sqlite3.OperationalError('injected %s at statement %d (%s)' % ('death' if self.kinds[i] else 'error', n, op))
+                raise sqlite3.OperationalError('injected %s at statement %d (%s)' % ('death' if kind else 'error', n, op))
         self.log.append((n, op, sql))
+        return _nothing
 
     def dump(self):
         return ' | '.join('#%s %s' % (e[0], ' '.join(str(x) for x in e[1:] if x is not None)) for e in self.log)
+
+
+def _nothing():
+    pass
 
 
 class WCur(object):
@@ -134,13 +154,15 @@ class WCur(object):
         self._w, self._raw, self._p = wcon, raw, wcon._p
 
     def execute(self, sql, *args):
-        self._p.tick('execute', sql)
+        after = self._p.tick('execute', sql)
         self._raw.execute(sql, *args)
+        after()
         return self
 
     def executemany(self, sql, *args):
-        self._p.tick('executemany', sql)
+        after = self._p.tick('executemany', sql)
         self._raw.executemany(sql, *args)
+        after()
         return self
 
     def fetchone(self):
@@ -177,18 +199,22 @@ class WCon(object):
         return WCur(self, self._raw.cursor())
 
     def execute(self, sql, *args):             # sqlite3.Connection.execute shortcut (PRAGMAs in SQLitePool._connect)
-        self._p.tick('execute', sql)
-        return WCur(self, self._raw.execute(sql, *args))
+        after = self._p.tick('execute', sql)
+        cur = WCur(self, self._raw.execute(sql, *args))
+        after()
+        return cur
 
     def commit(self):
-        self._p.tick('commit')
+        after = self._p.tick('commit')
         had = self._raw.in_transaction
         self._raw.commit()
         if had: self._p.real_commits += 1
+        after()
 
     def rollback(self):
-        self._p.tick('rollback')
+        after = self._p.tick('rollback')
         self._raw.rollback()
+        after()
 
     def close(self):
         self._p.gate('close')
@@ -289,7 +315,7 @@ def setup():
     for name in PROGRAMS:
         for mode in range(4):
             for warm in (False, True):
-                r = _scenario_body(name, (0, 0), (False, False), mode, warm)
+                r = _scenario_body(name, (0, 0, 0), (0, 0, 0), mode, warm)
                 assert r, (name, mode, warm, LAST.get('why'), plan.dump())
 
 
@@ -436,6 +462,36 @@ def p_rollback_mid(E, mark):
     E.Log(id=1, msg='after rollback')
 
 
+def p_nested(E, mark):
+    from pony.orm import db_session
+    E.Acct[1].bal -= 50
+    with db_session(immediate=True):            # an inner session is ignored: its exit must not commit anything
+        E.Acct[2].bal += 50
+        E.db.execute("INSERT INTO Log (id, msg) VALUES (1, 'inner')")
+    E.Log(id=2, msg='outer')
+
+
+def p_for_update(E, mark):
+    a = E.Acct.get_for_update(id=1)
+    b = E.Acct.select(lambda x: x.id == 2).for_update().first()
+    a.bal -= 50
+    b.bal += 50
+    E.Log(id=1, msg='locked')
+
+
+def p_retry(E, mark):
+    _transfer(E, 1, 2, 50)
+    E.db.execute("INSERT INTO Log (id, msg) VALUES (1, 'retry')")
+    E.Acct[3].bal += 1
+
+
+def _retry_kw():
+    from pony.orm import OperationalError
+    return dict(retry=1, retry_exceptions=[OperationalError])
+
+
+SESSION_EXTRA = {'retry': _retry_kw}          # programs run as a decorated function with these extra db_session options
+
 PROGRAMS = {
     'insert': (p_insert, [[('acct+', 4, 400), ('log+', 1, 'open 4')]]),
     'update': (p_update, [[('bal', 1, -50), ('bal', 2, 50)]]),
@@ -453,6 +509,9 @@ PROGRAMS = {
                                           [('log+', 1, 'after commit'), ('bal', 2, -70), ('bal', 3, 70)],
                                           [('tag+', 3, 'c'), ('link+', 3, 3)]]),
     'rollback_mid': (p_rollback_mid, [[('bal', 2, 5), ('log+', 1, 'after rollback')]]),
+    'nested': (p_nested, [[('bal', 1, -50), ('bal', 2, 50), ('log+', 1, 'inner'), ('log+', 2, 'outer')]]),
+    'for_update': (p_for_update, [[('bal', 1, -50), ('bal', 2, 50), ('log+', 1, 'locked')]]),
+    'retry': (p_retry, [[('bal', 1, -50), ('bal', 2, 50), ('log+', 1, 'retry'), ('bal', 3, 1)]]),
 }
 
 
@@ -513,8 +572,12 @@ def _scenario_body(name, faults, kinds, mode, warm):
     plan.arm(faults, kinds)
     session_exc = None
     try:
-        with db_session(**MODE_KW[mode]):
-            body(E, mark)
+        if name in SESSION_EXTRA:
+            kw = dict(MODE_KW[mode]); kw.update(SESSION_EXTRA[name]())
+            db_session(**kw)(body)(E, mark)
+        else:
+            with db_session(**MODE_KW[mode]):
+                body(E, mark)
     except Exception as e:
         session_exc = e
     plan.armed = False
@@ -557,14 +620,15 @@ def _say(result):
         print('statement journal: %s' % plan.dump())
 
 
-def _scenario(name, k1, k2, die1, die2, mode, warm):
+def _scenario(name, k1, k2, k3, kind1, kind2, kind3, mode, warm):
     # the small symbolic options are decided here, under tracing; the fault positions stay symbolic
-    die1 = True if die1 else False
-    die2 = True if die2 else False
+    kind1 = 0 if kind1 == 0 else 1 if kind1 == 1 else 2
+    kind2 = 0 if kind2 == 0 else 1 if kind2 == 1 else 2
+    kind3 = 0 if kind3 == 0 else 1 if kind3 == 1 else 2
     warm = True if warm else False
     mode = 0 if mode == 0 else 1 if mode == 1 else 2 if mode == 2 else 3
     with F.untraced(plan):
-        r = _scenario_body(name, (k1, k2), (die1, die2), mode, warm)
+        r = _scenario_body(name, (k1, k2, k3), (kind1, kind2, kind3), mode, warm)
     _say(r)
     return r
 
@@ -579,170 +643,273 @@ HARNESSES = []
 
 # One explicit function per program (CrossHair reads the conditions from the source text).
 
-def insert(k1: int, k2: int, die1: bool, die2: bool, mode: int, warm: bool) -> bool:
+def insert(k1: int, k2: int, k3: int, kind1: int, kind2: int, kind3: int, mode: int, warm: bool) -> bool:
     """
     pre: 0 <= k1 <= KMAX
     pre: (k2 == 0) or (0 < k1 < k2 <= K2MAX)
-    pre: not (die1 and k2 != 0)
-    pre: k2 != 0 or not die2
+    pre: (k3 == 0) or (0 < k2 < k3 <= K3MAX)
+    pre: 0 <= kind1 < KINDS and 0 <= kind2 < KINDS and 0 <= kind3 < KINDS
+    pre: (kind1 == 0 or k1 != 0) and (kind2 == 0 or k2 != 0) and (kind3 == 0 or k3 != 0)
+    pre: (kind1 != 1 or k2 == 0) and (kind2 != 1 or k3 == 0)
+    pre: FULL or k2 == 0 or (kind1 == 0 and kind2 <= 1)
+    pre: k3 == 0 or (kind1 == 0 and kind2 == 0 and kind3 <= 1)
     pre: 0 <= mode < MODES
     post: _
     """
-    return ok(_scenario('insert', k1, k2, die1, die2, mode, warm))
+    return ok(_scenario('insert', k1, k2, k3, kind1, kind2, kind3, mode, warm))
 HARNESSES.append('insert')
 
 
-def update(k1: int, k2: int, die1: bool, die2: bool, mode: int, warm: bool) -> bool:
+def update(k1: int, k2: int, k3: int, kind1: int, kind2: int, kind3: int, mode: int, warm: bool) -> bool:
     """
     pre: 0 <= k1 <= KMAX
     pre: (k2 == 0) or (0 < k1 < k2 <= K2MAX)
-    pre: not (die1 and k2 != 0)
-    pre: k2 != 0 or not die2
+    pre: (k3 == 0) or (0 < k2 < k3 <= K3MAX)
+    pre: 0 <= kind1 < KINDS and 0 <= kind2 < KINDS and 0 <= kind3 < KINDS
+    pre: (kind1 == 0 or k1 != 0) and (kind2 == 0 or k2 != 0) and (kind3 == 0 or k3 != 0)
+    pre: (kind1 != 1 or k2 == 0) and (kind2 != 1 or k3 == 0)
+    pre: FULL or k2 == 0 or (kind1 == 0 and kind2 <= 1)
+    pre: k3 == 0 or (kind1 == 0 and kind2 == 0 and kind3 <= 1)
     pre: 0 <= mode < MODES
     post: _
     """
-    return ok(_scenario('update', k1, k2, die1, die2, mode, warm))
+    return ok(_scenario('update', k1, k2, k3, kind1, kind2, kind3, mode, warm))
 HARNESSES.append('update')
 
 
-def delete(k1: int, k2: int, die1: bool, die2: bool, mode: int, warm: bool) -> bool:
+def delete(k1: int, k2: int, k3: int, kind1: int, kind2: int, kind3: int, mode: int, warm: bool) -> bool:
     """
     pre: 0 <= k1 <= KMAX
     pre: (k2 == 0) or (0 < k1 < k2 <= K2MAX)
-    pre: not (die1 and k2 != 0)
-    pre: k2 != 0 or not die2
+    pre: (k3 == 0) or (0 < k2 < k3 <= K3MAX)
+    pre: 0 <= kind1 < KINDS and 0 <= kind2 < KINDS and 0 <= kind3 < KINDS
+    pre: (kind1 == 0 or k1 != 0) and (kind2 == 0 or k2 != 0) and (kind3 == 0 or k3 != 0)
+    pre: (kind1 != 1 or k2 == 0) and (kind2 != 1 or k3 == 0)
+    pre: FULL or k2 == 0 or (kind1 == 0 and kind2 <= 1)
+    pre: k3 == 0 or (kind1 == 0 and kind2 == 0 and kind3 <= 1)
     pre: 0 <= mode < MODES
     post: _
     """
-    return ok(_scenario('delete', k1, k2, die1, die2, mode, warm))
+    return ok(_scenario('delete', k1, k2, k3, kind1, kind2, kind3, mode, warm))
 HARNESSES.append('delete')
 
 
-def m2m(k1: int, k2: int, die1: bool, die2: bool, mode: int, warm: bool) -> bool:
+def m2m(k1: int, k2: int, k3: int, kind1: int, kind2: int, kind3: int, mode: int, warm: bool) -> bool:
     """
     pre: 0 <= k1 <= KMAX
     pre: (k2 == 0) or (0 < k1 < k2 <= K2MAX)
-    pre: not (die1 and k2 != 0)
-    pre: k2 != 0 or not die2
+    pre: (k3 == 0) or (0 < k2 < k3 <= K3MAX)
+    pre: 0 <= kind1 < KINDS and 0 <= kind2 < KINDS and 0 <= kind3 < KINDS
+    pre: (kind1 == 0 or k1 != 0) and (kind2 == 0 or k2 != 0) and (kind3 == 0 or k3 != 0)
+    pre: (kind1 != 1 or k2 == 0) and (kind2 != 1 or k3 == 0)
+    pre: FULL or k2 == 0 or (kind1 == 0 and kind2 <= 1)
+    pre: k3 == 0 or (kind1 == 0 and kind2 == 0 and kind3 <= 1)
     pre: 0 <= mode < MODES
     post: _
     """
-    return ok(_scenario('m2m', k1, k2, die1, die2, mode, warm))
+    return ok(_scenario('m2m', k1, k2, k3, kind1, kind2, kind3, mode, warm))
 HARNESSES.append('m2m')
 
 
-def raw_first(k1: int, k2: int, die1: bool, die2: bool, mode: int, warm: bool) -> bool:
+def raw_first(k1: int, k2: int, k3: int, kind1: int, kind2: int, kind3: int, mode: int, warm: bool) -> bool:
     """
     pre: 0 <= k1 <= KMAX
     pre: (k2 == 0) or (0 < k1 < k2 <= K2MAX)
-    pre: not (die1 and k2 != 0)
-    pre: k2 != 0 or not die2
+    pre: (k3 == 0) or (0 < k2 < k3 <= K3MAX)
+    pre: 0 <= kind1 < KINDS and 0 <= kind2 < KINDS and 0 <= kind3 < KINDS
+    pre: (kind1 == 0 or k1 != 0) and (kind2 == 0 or k2 != 0) and (kind3 == 0 or k3 != 0)
+    pre: (kind1 != 1 or k2 == 0) and (kind2 != 1 or k3 == 0)
+    pre: FULL or k2 == 0 or (kind1 == 0 and kind2 <= 1)
+    pre: k3 == 0 or (kind1 == 0 and kind2 == 0 and kind3 <= 1)
     pre: 0 <= mode < MODES
     post: _
     """
-    return ok(_scenario('raw_first', k1, k2, die1, die2, mode, warm))
+    return ok(_scenario('raw_first', k1, k2, k3, kind1, kind2, kind3, mode, warm))
 HARNESSES.append('raw_first')
 
 
-def orm_first(k1: int, k2: int, die1: bool, die2: bool, mode: int, warm: bool) -> bool:
+def orm_first(k1: int, k2: int, k3: int, kind1: int, kind2: int, kind3: int, mode: int, warm: bool) -> bool:
     """
     pre: 0 <= k1 <= KMAX
     pre: (k2 == 0) or (0 < k1 < k2 <= K2MAX)
-    pre: not (die1 and k2 != 0)
-    pre: k2 != 0 or not die2
+    pre: (k3 == 0) or (0 < k2 < k3 <= K3MAX)
+    pre: 0 <= kind1 < KINDS and 0 <= kind2 < KINDS and 0 <= kind3 < KINDS
+    pre: (kind1 == 0 or k1 != 0) and (kind2 == 0 or k2 != 0) and (kind3 == 0 or k3 != 0)
+    pre: (kind1 != 1 or k2 == 0) and (kind2 != 1 or k3 == 0)
+    pre: FULL or k2 == 0 or (kind1 == 0 and kind2 <= 1)
+    pre: k3 == 0 or (kind1 == 0 and kind2 == 0 and kind3 <= 1)
     pre: 0 <= mode < MODES
     post: _
     """
-    return ok(_scenario('orm_first', k1, k2, die1, die2, mode, warm))
+    return ok(_scenario('orm_first', k1, k2, k3, kind1, kind2, kind3, mode, warm))
 HARNESSES.append('orm_first')
 
 
-def db_insert(k1: int, k2: int, die1: bool, die2: bool, mode: int, warm: bool) -> bool:
+def db_insert(k1: int, k2: int, k3: int, kind1: int, kind2: int, kind3: int, mode: int, warm: bool) -> bool:
     """
     pre: 0 <= k1 <= KMAX
     pre: (k2 == 0) or (0 < k1 < k2 <= K2MAX)
-    pre: not (die1 and k2 != 0)
-    pre: k2 != 0 or not die2
+    pre: (k3 == 0) or (0 < k2 < k3 <= K3MAX)
+    pre: 0 <= kind1 < KINDS and 0 <= kind2 < KINDS and 0 <= kind3 < KINDS
+    pre: (kind1 == 0 or k1 != 0) and (kind2 == 0 or k2 != 0) and (kind3 == 0 or k3 != 0)
+    pre: (kind1 != 1 or k2 == 0) and (kind2 != 1 or k3 == 0)
+    pre: FULL or k2 == 0 or (kind1 == 0 and kind2 <= 1)
+    pre: k3 == 0 or (kind1 == 0 and kind2 == 0 and kind3 <= 1)
     pre: 0 <= mode < MODES
     post: _
     """
-    return ok(_scenario('db_insert', k1, k2, die1, die2, mode, warm))
+    return ok(_scenario('db_insert', k1, k2, k3, kind1, kind2, kind3, mode, warm))
 HARNESSES.append('db_insert')
 
 
-def get_connection(k1: int, k2: int, die1: bool, die2: bool, mode: int, warm: bool) -> bool:
+def get_connection(k1: int, k2: int, k3: int, kind1: int, kind2: int, kind3: int, mode: int, warm: bool) -> bool:
     """
     pre: 0 <= k1 <= KMAX
     pre: (k2 == 0) or (0 < k1 < k2 <= K2MAX)
-    pre: not (die1 and k2 != 0)
-    pre: k2 != 0 or not die2
+    pre: (k3 == 0) or (0 < k2 < k3 <= K3MAX)
+    pre: 0 <= kind1 < KINDS and 0 <= kind2 < KINDS and 0 <= kind3 < KINDS
+    pre: (kind1 == 0 or k1 != 0) and (kind2 == 0 or k2 != 0) and (kind3 == 0 or k3 != 0)
+    pre: (kind1 != 1 or k2 == 0) and (kind2 != 1 or k3 == 0)
+    pre: FULL or k2 == 0 or (kind1 == 0 and kind2 <= 1)
+    pre: k3 == 0 or (kind1 == 0 and kind2 == 0 and kind3 <= 1)
     pre: 0 <= mode < MODES
     post: _
     """
-    return ok(_scenario('get_connection', k1, k2, die1, die2, mode, warm))
+    return ok(_scenario('get_connection', k1, k2, k3, kind1, kind2, kind3, mode, warm))
 HARNESSES.append('get_connection')
 
 
-def bulk_delete(k1: int, k2: int, die1: bool, die2: bool, mode: int, warm: bool) -> bool:
+def bulk_delete(k1: int, k2: int, k3: int, kind1: int, kind2: int, kind3: int, mode: int, warm: bool) -> bool:
     """
     pre: 0 <= k1 <= KMAX
     pre: (k2 == 0) or (0 < k1 < k2 <= K2MAX)
-    pre: not (die1 and k2 != 0)
-    pre: k2 != 0 or not die2
+    pre: (k3 == 0) or (0 < k2 < k3 <= K3MAX)
+    pre: 0 <= kind1 < KINDS and 0 <= kind2 < KINDS and 0 <= kind3 < KINDS
+    pre: (kind1 == 0 or k1 != 0) and (kind2 == 0 or k2 != 0) and (kind3 == 0 or k3 != 0)
+    pre: (kind1 != 1 or k2 == 0) and (kind2 != 1 or k3 == 0)
+    pre: FULL or k2 == 0 or (kind1 == 0 and kind2 <= 1)
+    pre: k3 == 0 or (kind1 == 0 and kind2 == 0 and kind3 <= 1)
     pre: 0 <= mode < MODES
     post: _
     """
-    return ok(_scenario('bulk_delete', k1, k2, die1, die2, mode, warm))
+    return ok(_scenario('bulk_delete', k1, k2, k3, kind1, kind2, kind3, mode, warm))
 HARNESSES.append('bulk_delete')
 
 
-def two_flushes(k1: int, k2: int, die1: bool, die2: bool, mode: int, warm: bool) -> bool:
+def two_flushes(k1: int, k2: int, k3: int, kind1: int, kind2: int, kind3: int, mode: int, warm: bool) -> bool:
     """
     pre: 0 <= k1 <= KMAX
     pre: (k2 == 0) or (0 < k1 < k2 <= K2MAX)
-    pre: not (die1 and k2 != 0)
-    pre: k2 != 0 or not die2
+    pre: (k3 == 0) or (0 < k2 < k3 <= K3MAX)
+    pre: 0 <= kind1 < KINDS and 0 <= kind2 < KINDS and 0 <= kind3 < KINDS
+    pre: (kind1 == 0 or k1 != 0) and (kind2 == 0 or k2 != 0) and (kind3 == 0 or k3 != 0)
+    pre: (kind1 != 1 or k2 == 0) and (kind2 != 1 or k3 == 0)
+    pre: FULL or k2 == 0 or (kind1 == 0 and kind2 <= 1)
+    pre: k3 == 0 or (kind1 == 0 and kind2 == 0 and kind3 <= 1)
     pre: 0 <= mode < MODES
     post: _
     """
-    return ok(_scenario('two_flushes', k1, k2, die1, die2, mode, warm))
+    return ok(_scenario('two_flushes', k1, k2, k3, kind1, kind2, kind3, mode, warm))
 HARNESSES.append('two_flushes')
 
 
-def commit_mid(k1: int, k2: int, die1: bool, die2: bool, mode: int, warm: bool) -> bool:
+def commit_mid(k1: int, k2: int, k3: int, kind1: int, kind2: int, kind3: int, mode: int, warm: bool) -> bool:
     """
     pre: 0 <= k1 <= KMAX
     pre: (k2 == 0) or (0 < k1 < k2 <= K2MAX)
-    pre: not (die1 and k2 != 0)
-    pre: k2 != 0 or not die2
+    pre: (k3 == 0) or (0 < k2 < k3 <= K3MAX)
+    pre: 0 <= kind1 < KINDS and 0 <= kind2 < KINDS and 0 <= kind3 < KINDS
+    pre: (kind1 == 0 or k1 != 0) and (kind2 == 0 or k2 != 0) and (kind3 == 0 or k3 != 0)
+    pre: (kind1 != 1 or k2 == 0) and (kind2 != 1 or k3 == 0)
+    pre: FULL or k2 == 0 or (kind1 == 0 and kind2 <= 1)
+    pre: k3 == 0 or (kind1 == 0 and kind2 == 0 and kind3 <= 1)
     pre: 0 <= mode < MODES
     post: _
     """
-    return ok(_scenario('commit_mid', k1, k2, die1, die2, mode, warm))
+    return ok(_scenario('commit_mid', k1, k2, k3, kind1, kind2, kind3, mode, warm))
 HARNESSES.append('commit_mid')
 
 
-def commit_mid_raw(k1: int, k2: int, die1: bool, die2: bool, mode: int, warm: bool) -> bool:
+def commit_mid_raw(k1: int, k2: int, k3: int, kind1: int, kind2: int, kind3: int, mode: int, warm: bool) -> bool:
     """
     pre: 0 <= k1 <= KMAX
     pre: (k2 == 0) or (0 < k1 < k2 <= K2MAX)
-    pre: not (die1 and k2 != 0)
-    pre: k2 != 0 or not die2
+    pre: (k3 == 0) or (0 < k2 < k3 <= K3MAX)
+    pre: 0 <= kind1 < KINDS and 0 <= kind2 < KINDS and 0 <= kind3 < KINDS
+    pre: (kind1 == 0 or k1 != 0) and (kind2 == 0 or k2 != 0) and (kind3 == 0 or k3 != 0)
+    pre: (kind1 != 1 or k2 == 0) and (kind2 != 1 or k3 == 0)
+    pre: FULL or k2 == 0 or (kind1 == 0 and kind2 <= 1)
+    pre: k3 == 0 or (kind1 == 0 and kind2 == 0 and kind3 <= 1)
     pre: 0 <= mode < MODES
     post: _
     """
-    return ok(_scenario('commit_mid_raw', k1, k2, die1, die2, mode, warm))
+    return ok(_scenario('commit_mid_raw', k1, k2, k3, kind1, kind2, kind3, mode, warm))
 HARNESSES.append('commit_mid_raw')
 
 
-def rollback_mid(k1: int, k2: int, die1: bool, die2: bool, mode: int, warm: bool) -> bool:
+def rollback_mid(k1: int, k2: int, k3: int, kind1: int, kind2: int, kind3: int, mode: int, warm: bool) -> bool:
     """
     pre: 0 <= k1 <= KMAX
     pre: (k2 == 0) or (0 < k1 < k2 <= K2MAX)
-    pre: not (die1 and k2 != 0)
-    pre: k2 != 0 or not die2
+    pre: (k3 == 0) or (0 < k2 < k3 <= K3MAX)
+    pre: 0 <= kind1 < KINDS and 0 <= kind2 < KINDS and 0 <= kind3 < KINDS
+    pre: (kind1 == 0 or k1 != 0) and (kind2 == 0 or k2 != 0) and (kind3 == 0 or k3 != 0)
+    pre: (kind1 != 1 or k2 == 0) and (kind2 != 1 or k3 == 0)
+    pre: FULL or k2 == 0 or (kind1 == 0 and kind2 <= 1)
+    pre: k3 == 0 or (kind1 == 0 and kind2 == 0 and kind3 <= 1)
     pre: 0 <= mode < MODES
     post: _
     """
-    return ok(_scenario('rollback_mid', k1, k2, die1, die2, mode, warm))
+    return ok(_scenario('rollback_mid', k1, k2, k3, kind1, kind2, kind3, mode, warm))
 HARNESSES.append('rollback_mid')
+
+
+def nested(k1: int, k2: int, k3: int, kind1: int, kind2: int, kind3: int, mode: int, warm: bool) -> bool:
+    """
+    pre: 0 <= k1 <= KMAX
+    pre: (k2 == 0) or (0 < k1 < k2 <= K2MAX)
+    pre: (k3 == 0) or (0 < k2 < k3 <= K3MAX)
+    pre: 0 <= kind1 < KINDS and 0 <= kind2 < KINDS and 0 <= kind3 < KINDS
+    pre: (kind1 == 0 or k1 != 0) and (kind2 == 0 or k2 != 0) and (kind3 == 0 or k3 != 0)
+    pre: (kind1 != 1 or k2 == 0) and (kind2 != 1 or k3 == 0)
+    pre: FULL or k2 == 0 or (kind1 == 0 and kind2 <= 1)
+    pre: k3 == 0 or (kind1 == 0 and kind2 == 0 and kind3 <= 1)
+    pre: 0 <= mode < MODES
+    post: _
+    """
+    return ok(_scenario('nested', k1, k2, k3, kind1, kind2, kind3, mode, warm))
+HARNESSES.append('nested')
+
+
+def for_update(k1: int, k2: int, k3: int, kind1: int, kind2: int, kind3: int, mode: int, warm: bool) -> bool:
+    """
+    pre: 0 <= k1 <= KMAX
+    pre: (k2 == 0) or (0 < k1 < k2 <= K2MAX)
+    pre: (k3 == 0) or (0 < k2 < k3 <= K3MAX)
+    pre: 0 <= kind1 < KINDS and 0 <= kind2 < KINDS and 0 <= kind3 < KINDS
+    pre: (kind1 == 0 or k1 != 0) and (kind2 == 0 or k2 != 0) and (kind3 == 0 or k3 != 0)
+    pre: (kind1 != 1 or k2 == 0) and (kind2 != 1 or k3 == 0)
+    pre: FULL or k2 == 0 or (kind1 == 0 and kind2 <= 1)
+    pre: k3 == 0 or (kind1 == 0 and kind2 == 0 and kind3 <= 1)
+    pre: 0 <= mode < MODES
+    post: _
+    """
+    return ok(_scenario('for_update', k1, k2, k3, kind1, kind2, kind3, mode, warm))
+HARNESSES.append('for_update')
+
+
+def retry(k1: int, k2: int, k3: int, kind1: int, kind2: int, kind3: int, mode: int, warm: bool) -> bool:
+    """
+    pre: 0 <= k1 <= KMAX
+    pre: (k2 == 0) or (0 < k1 < k2 <= K2MAX)
+    pre: (k3 == 0) or (0 < k2 < k3 <= K3MAX)
+    pre: 0 <= kind1 < KINDS and 0 <= kind2 < KINDS and 0 <= kind3 < KINDS
+    pre: (kind1 == 0 or k1 != 0) and (kind2 == 0 or k2 != 0) and (kind3 == 0 or k3 != 0)
+    pre: (kind1 != 1 or k2 == 0) and (kind2 != 1 or k3 == 0)
+    pre: FULL or k2 == 0 or (kind1 == 0 and kind2 <= 1)
+    pre: k3 == 0 or (kind1 == 0 and kind2 == 0 and kind3 <= 1)
+    pre: 0 <= mode < MODES
+    post: _
+    """
+    return ok(_scenario('retry', k1, k2, k3, kind1, kind2, kind3, mode, warm))
+HARNESSES.append('retry')
